@@ -25,6 +25,10 @@ type ReplaySpec struct {
 	// properties for which this replay is the history of a REPAIRED defect: the thorough tier runs it against the
 	// current tree as a regression (REPLAY-CONFIRMED = the defect is back, a violation with its failing history)
 	Regress []string `json:"regression_of_fixed_defect_for"`
+	// properties for which this replay is the history of a defect that is recorded and NOT repaired (known finding): it
+	// is run on every check of the property; REPLAY-CONFIRMED fails the obligation bounded:finding-replay:<run>, which
+	// known_findings.txt lists (KNOWN-FINDING line, exit 0)
+	Open []string `json:"open_finding_for"`
 }
 
 func loadReplaySpecs() []ReplaySpec {
